@@ -39,7 +39,10 @@ Definition leaf (i : info) : obj := Obj i [] [] None.
 (* ---------- statements (the abstraction of a Python module) ---------- *)
 Inductive deco :=
 | DPath (p : string)                    (* decorator whose callable path is p (already resolved) *)
-| DAccessor (base fn : string).         (* @<base>.<fn> with base a bare name and fn in setter/deleter *)
+| DAccessor (base fn : string)          (* @<base>.<fn> with base a bare name and fn in setter/deleter *)
+| DRef (head rest : string).            (* NOT YET RESOLVED: dotted name <head><rest> (rest = "" or ".a.b"); resolved by
+                                           Model/C01_resolve.v against the scopes at the moment of the definition; an
+                                           unresolved reference derives no label *)
 
 Inductive target :=
 | TName (n : string)                    (* x *)
@@ -52,6 +55,12 @@ Inductive impname :=
 | IStar (an ap : string)                (* wildcard: pseudo member name a/b/*, path a.b *)
 | ISkip.                                (* `from . import b` inside an __init__ module *)
 
+(* what the test of an `if` says about type checking: nothing, `TYPE_CHECKING` (the body is type-checking-only code),
+   or `not TYPE_CHECKING` (the else branch is) *)
+Inductive tcond := TCNone | TCPos | TCNeg.
+Definition tc_pos (t : tcond) : bool := match t with TCPos => true | _ => false end.
+Definition tc_neg (t : tcond) : bool := match t with TCNeg => true | _ => false end.
+
 Inductive stmt :=
 | SDef (ln dln eln : nat) (name : string) (is_async : bool) (decos : list deco) (body : list stmt)
 | SCls (ln dln eln : nat) (name : string) (decos : list deco) (body : list stmt)
@@ -60,7 +69,7 @@ Inductive stmt :=
 | SAugAll (items : list string)                          (* __all__ += ... / __all__.extend(...) / __all__.append(.) *)
 | SImport (ln eln : nat) (names : list (string * string))
 | SImportFrom (ln eln : nat) (names : list impname)
-| SIf (tc : bool) (body orelse : list stmt)              (* tc: the test reads TYPE_CHECKING / typing.TYPE_CHECKING *)
+| SIf (tc : tcond) (body orelse : list stmt)             (* tc: the test reads [not] TYPE_CHECKING / typing.TYPE_CHECKING *)
 | SBlock (children : list stmt)                          (* for/while/with/try/match: statement children in field order *)
 | SSub (handler : bool) (body : list stmt)               (* except handler (true) / match case (false), a child of a block *)
 | SDoc (ln eln : nat)                                    (* expression statement that is a string constant *)
@@ -118,11 +127,12 @@ Definition deco_labels (d : deco) : list string :=
                | None => match assoc_labels p stdlib_decorators with Some ls => ls | None => [] end
                end
   | DAccessor _ _ => []
+  | DRef _ _ => []
   end.
 Definition decorators_to_labels (ds : list deco) : list string :=
   fold_left (fun acc d => lunion acc (deco_labels d)) ds [].
 Definition is_overload_deco (d : deco) : bool :=
-  match d with DPath p => str_mem p typing_overload | DAccessor _ _ => false end.
+  match d with DPath p => str_mem p typing_overload | _ => false end.
 
 Definition member_is_property (ms : list (string * obj)) (n : string) : bool :=
   match lookup n ms with
@@ -229,6 +239,12 @@ Fixpoint attr_loop (cond : bool) (g : bool) (ln eln : nat) (all_items : list str
 
 Definition is_cond (pk : pkind) : bool := match pk with PIf | PHandler => true | _ => false end.
 Definition is_level (pk : pkind) : bool := match pk with PScope => true | _ => false end.
+(* the guard flag in the body / in the else branch of an `if` visited with flag g and parent kind pk: only an `if`
+   directly in a module or class body can guard *)
+Definition gbody (g : bool) (pk : pkind) (tc : tcond) : bool := g || (is_level pk && tc_pos tc).
+Definition gelse (g : bool) (pk : pkind) (tc : tcond) : bool := g || (is_level pk && tc_neg tc).
+
+
 
 (* handle_attribute with [own] = Visitor.current and [up] = its parent; returns both *)
 Definition op_attr (pk : pkind) (g : bool) (ln eln : nat) (ts : list target) (has_value classvar : bool)
@@ -263,6 +279,14 @@ Fixpoint op_import (g : bool) (ln eln : nat) (names : list (string * string)) (f
       (f3, EvAlias an ln (fpath f) (frame_pfun f) :: evs)
   end.
 
+(* `from module import __all__` (runtime code, module level): the other module's list becomes this module's exports,
+   recorded as the one name __all__ (expanded later by the loader) *)
+Definition import_all (g : bool) (an : string) (f : frame) : frame :=
+  match fkind f with
+  | InModule => if String.eqb an "__all__" && negb g then set_exports f (Some ["n:__all__"]) else f
+  | _ => f
+  end.
+
 Fixpoint op_importfrom (g : bool) (ln eln : nat) (names : list impname) (f : frame) : frame * list event :=
   match names with
   | [] => (f, [])
@@ -277,7 +301,7 @@ Fixpoint op_importfrom (g : bool) (ln eln : nat) (names : list impname) (f : fra
       let f1 := set_imports f (assign an ap (fimports f)) in
       if String.eqb ap (dot (fpath f) an) then op_importfrom g ln eln r f1
       else
-        let f2 := set_members f1 (assign an (alias_obj g ln eln ap) (fmembers f1)) in
+        let f2 := import_all g an (set_members f1 (assign an (alias_obj g ln eln ap) (fmembers f1))) in
         let '(f3, evs) := op_importfrom g ln eln r f2 in
         (f3, EvAlias an ln (fpath f) (frame_pfun f) :: evs)
   end.
@@ -402,9 +426,9 @@ Fixpoint visit_stmt (pk : pkind) (nd : option (nat * nat)) (s : stmt) (st : vsta
   | SImportFrom ln eln names => on_top (op_importfrom (guarded st) ln eln names) st
   | SIf tc body orelse =>
       let prev := guarded st in
-      let st1 := if is_level pk && tc then set_guard st true else st in
+      let st1 := if is_level pk && tc_pos tc then set_guard st true else st in
       let st2 := visit_list PIf None None body st1 in
-      let st3 := visit_list PIf (Some prev) None orelse st2 in
+      let st3 := visit_list PIf (Some (gelse prev pk tc)) None orelse st2 in
       set_guard st3 prev
   | SBlock children => visit_list POther None None children st
   | SSub handler body => visit_list (if handler then PHandler else POther) None None body st
@@ -488,8 +512,8 @@ Fixpoint sem_stmt (g : bool) (pk : pkind) (nd : option (nat * nat)) (s : stmt) (
   | SImport ln eln names => let '(own', evs) := op_import g ln eln names own in mkL own' up evs None
   | SImportFrom ln eln names => let '(own', evs) := op_importfrom g ln eln names own in mkL own' up evs None
   | SIf tc body orelse =>
-      let a := sem_list (g || (is_level pk && tc)) PIf None body own up in
-      let b := sem_list g PIf None orelse (l_own a) (l_up a) in
+      let a := sem_list (gbody g pk tc) PIf None body own up in
+      let b := sem_list (gelse g pk tc) PIf None orelse (l_own a) (l_up a) in
       mkL (l_own b) (l_up b) (l_events a ++ l_events b) (first_err (l_err a) (l_err b))
   | SBlock children => sem_list g POther None children own up
   | SSub handler body => sem_list g (if handler then PHandler else POther) None body own up
@@ -546,7 +570,7 @@ Fixpoint init_bindings (g : bool) (pk : pkind) (s : stmt) {struct s} : list bind
       match names_init [t] with
       | Some ns => map (fun n => mkB n ln BAttr (is_cond pk) g) (plain_names ns)
       | None => [] end
-  | SIf tc body orelse => ibl (g || (is_level pk && tc)) PIf body ++ ibl g PIf orelse
+  | SIf tc body orelse => ibl (gbody g pk tc) PIf body ++ ibl (gelse g pk tc) PIf orelse
       (* inside a function body pk is never PScope, so no new type guard arises there *)
   | SBlock ch => ibl g POther ch
   | SSub h body => ibl g (if h then PHandler else POther) body
@@ -580,7 +604,7 @@ Fixpoint level_bindings (k : skind) (path : string) (g : bool) (pk : pkind) (s :
       | None => [] end
   | SImport ln _ names => import_bindings g ln names
   | SImportFrom ln _ names => importfrom_bindings g ln path names
-  | SIf tc body orelse => lbl (g || (is_level pk && tc)) PIf body ++ lbl g PIf orelse
+  | SIf tc body orelse => lbl (gbody g pk tc) PIf body ++ lbl (gelse g pk tc) PIf orelse
   | SBlock ch => lbl g POther ch
   | SSub h body => lbl g (if h then PHandler else POther) body
   | _ => []
@@ -683,6 +707,7 @@ Definition dec_deco (s : sexp) : option deco :=
   match s with
   | SList [SStr "path"; SStr p] => Some (DPath p)
   | SList [SStr "acc"; SStr b; SStr f] => Some (DAccessor b f)
+  | SList [SStr "ref"; SStr h; SStr r] => Some (DRef h r)
   | _ => None
   end.
 Definition dec_target (s : sexp) : option target :=
@@ -702,6 +727,9 @@ Definition dec_impname (s : sexp) : option impname :=
   end.
 Definition dec_pair (s : sexp) : option (string * string) :=
   match s with SList [SStr a; SStr b] => Some (a, b) | _ => None end.
+
+Definition dec_tcond (s : sexp) : option tcond :=
+  do n <- as_nat s; match n with 0 => Some TCNone | 1 => Some TCPos | 2 => Some TCNeg | _ => None end.
 
 Fixpoint dec_stmt (fuel : nat) (s : sexp) {struct fuel} : option stmt :=
   match fuel with
@@ -727,7 +755,7 @@ Fixpoint dec_stmt (fuel : nat) (s : sexp) {struct fuel} : option stmt :=
     | SList [SStr "importfrom"; ln; eln; names] =>
         do ln' <- as_nat ln; do eln' <- as_nat eln; do ns <- as_list_of dec_impname names; Some (SImportFrom ln' eln' ns)
     | SList [SStr "if"; tc; body; orelse] =>
-        do tc' <- as_bool tc; do b' <- dl body; do o' <- dl orelse; Some (SIf tc' b' o')
+        do tc' <- dec_tcond tc; do b' <- dl body; do o' <- dl orelse; Some (SIf tc' b' o')
     | SList [SStr "block"; ch] => do c' <- dl ch; Some (SBlock c')
     | SList [SStr "sub"; h; body] => do h' <- as_bool h; do b' <- dl body; Some (SSub h' b')
     | SList [SStr "doc"; ln; eln] => do ln' <- as_nat ln; do eln' <- as_nat eln; Some (SDoc ln' eln')
